@@ -207,6 +207,7 @@ func (e *mapEnv) dFull() string {
 	if int(e.m.Count()) != len(e.shadow) {
 		e.violation("C02", fmt.Sprintf("count %d, dictionary has %d", e.m.Count(), len(e.shadow)))
 	}
+	e.health()
 	return d
 }
 
